@@ -18,6 +18,9 @@ for d in sorted(glob.glob(os.path.join(os.path.dirname(os.path.dirname(os.path.a
                 fam = l.split("# failed obligation ")[1].split(" (")[0].split("@")[0]
                 break
         caught.append(f"{c}: {'alarm' if r['exit'] == 1 else 'silent'}" + (f" ({r['reproduced']}/{r['violations']} replayed; `{fam}`)" if r["exit"] == 1 else ""))
+    if m.get("breaks") is None:
+        rows.append(f"| `{os.path.basename(d)}` | none (negative control) | {m.get('tests_with_change', '')} | {m.get('result', '')} |")
+        continue
     rows.append(f"| `{os.path.basename(d)}` | {m['breaks']} | {m.get('tests_with_change', '')} | " + "; ".join(caught) + " |")
 print("| seeded change | property | tests with the change | quick checks run against it |")
 print("|---|---|---|---|")
